@@ -448,7 +448,40 @@ RAW_SOURCES = {
 }
 
 
+def _raw_docs(text, asc, desc, width, ux, uy):
+    from picosvg.svg import SVG
+    from nanoemoji.color_glyph import ColorGlyph
+
+    U = Affine2D(1, 0, 0, 1, ux, uy)
+    ufo = type("U", (), {"info": type("I", (), {"ascender": asc, "descender": desc, "familyName": "f"})(), "__getitem__": lambda self, k: type("G", (), {"width": width})()})()
+    cg = ColorGlyph(ufo, "f.svg", "", "g", 7, (65,), None, SVG.fromstring(text), U, None)
+    cfg = type("Cfg", (), {"pretty_print": False})()
+    return SVGMOD._rawsvg_docs(cfg, None, (cg,)), U
+
+
 def replay_raw(inp):
+    """the real _rawsvg_docs on the witness metrics / user shift, compared numerically with the OT-SVG placement spec"""
+    text = RAW_SOURCES[inp["source"]]
+    src_root = etree.fromstring(text)
+    vb = tuple(float(v) for v in src_root.attrib["viewBox"].split())
+    asc, desc, width = int(inp["asc"]), int(inp["desc"]), int(inp["width"])
+    try:
+        docs, U = _raw_docs(text, asc, desc, width, float(inp["ux"]), float(inp["uy"]))
+    except Exception as e:
+        return {"raised": repr(e)}
+    if len(docs) != 1 or docs[0][1] != 7 or docs[0][2] != 7:
+        return {"records": [d[1:] for d in docs]}
+    root = etree.fromstring(docs[0][0].encode("utf-8"))
+    gs = [el for el in root.iter() if isinstance(el.tag, str) and el.attrib.get("id") == "glyph7"]
+    if len(gs) != 1 or gs[0].getparent() is not root or len(root) != 1 or ({"viewBox", "width", "height", "enable-background"} & set(root.attrib)):
+        return {"structure": docs[0][0][:400]}
+    if [(etree.QName(c).localname, dict(c.attrib)) for c in gs[0]] != [(etree.QName(c).localname, dict(c.attrib)) for c in src_root]:
+        return {"source content changed": docs[0][0][:400]}
+    got = svs.parse_transform(gs[0].attrib.get("transform"), {})
+    want = C01.otsvg_spec(vb, asc, desc, width, tuple(U))
+    scale = max(1.0, max(abs(float(v)) for v in want))
+    if max(abs(float(a) - float(b)) for a, b in zip(got, want)) > 2e-3 * scale:
+        return {"transform written": [float(x) for x in got], "placement spec": [float(x) for x in want], "metrics": [asc, desc, width]}
     return None
 
 
@@ -462,7 +495,7 @@ def job_rawsvg(jc):
     text = RAW_SOURCES[name]
     src_root = etree.fromstring(text)
     vb = tuple(float(v) for v in src_root.attrib["viewBox"].split())
-    inp = {"source": name}
+    inp = {"source": name, "asc": core.SymNum(z3.Int("asc")), "desc": core.SymNum(z3.Int("desc")), "width": core.SymNum(z3.Int("width")), "ux": core.SymNum(z3.Real("ux")), "uy": core.SymNum(z3.Real("uy"))}
 
     def body():
         asc, desc, width = core.integer("asc", 0, 4000), core.integer("desc", -4000, 0), core.integer("width", 0, 8000)
@@ -478,8 +511,7 @@ def job_rawsvg(jc):
     with shims.installed(shims.std_shims() + shims.numeric_shims("nanoemoji.svg", "nanoemoji.color_glyph")):
         results = jc.explore(body, round_mode="identity", catch=(ValueError, AssertionError))
     for r in results:
-        if r.exc is not None:
-            jc.inconclusive.append(f"_rawsvg_docs raised {r.exc!r}")
+        if not jc.no_exception(r, inp, replay_raw, f"C02:rawsvg:{name}:raises"):
             continue
         docs, want = r.value
         jc.reach(r, "ok")
